@@ -373,5 +373,5 @@ Clauses(r0) == ClausesX(Enrich(r0)) \cup C18Log(r0)
 ClausesMCX(r) == C01(r) \cup C02(r) \cup C03(r) \cup C09(r) \cup C12(r) \cup C13rCl(r) \cup C18(r) \cup C18Marks(r)
 ClausesMC(r0) == ClausesMCX(Enrich(r0))
 \* defect families of the code as it is (DESIGN §8): the specification models them, the property layer rejects them
-KnownFamilies == {"C03.rollup/outline_untested", "C03.rollup/skip_by_step"}
+KnownFamilies == {"C03.rollup/skip_by_step"}
 =============================================================================
